@@ -86,10 +86,17 @@ OptMax(a, b) == IF a = -1 THEN b ELSE IF b = -1 THEN a ELSE MaxN(a, b)
 (* vc is a function replica -> count; hasvc is Option::is_some *)
 RV(c, vc, hasvc, exp, ts, rf) == [c |-> c, vc |-> vc, hasvc |-> hasvc, exp |-> exp, ts |-> ts, rf |-> rf]
 
+(* the expiry belongs to the write with the greater outer stamp; as built  *)
+(* ("expiry_max") the greater expiry survived whichever write won          *)
+ExpJoin(x, y) == IF "expiry_max" \in AsBuilt THEN OptMax(x.exp, y.exp)
+                 ELSE IF SLess(x.ts, y.ts) THEN y.exp
+                 ELSE IF SLess(y.ts, x.ts) THEN x.exp
+                 ELSE OptMax(x.exp, y.exp)
+
 Merge(x, y) ==
   RV(CrdtMerge(x.c, x.ts, y.c, y.ts),
      MapMax(x.vc, y.vc), x.hasvc \/ y.hasvc,
-     OptMax(x.exp, y.exp),
+     ExpJoin(x, y),
      StampJoin(x.ts, y.ts),
      MaxN(x.rf, y.rf))
 
